@@ -285,6 +285,28 @@ fn one_case_global(prop: &str, g: &mut Gen, cx: &mut Ctx) -> bool {
             }
             let j = g.rng.range(I32_MIN, I32_MAX);
             cx.check(julian::jdn2unix(j as i32) == (j - 2440588) * 86400, || format!("jdn2unix({j})"));
+            if g.rng.chance(1, 16) {
+                // the clock, asked by several calendars in a row on one thread: each answer is the
+                // asking calendar's date for the day the clock is in, whoever asked before
+                let cals: Vec<Calendar> = (0..3).filter_map(|_| mk(&g.cal().1)).collect();
+                let before = julian::system2jdn(std::time::SystemTime::now());
+                let answers: Vec<_> = cals.iter().map(|c| (c.now(), c.at_system_time(std::time::SystemTime::now()))).collect();
+                let after = julian::system2jdn(std::time::SystemTime::now());
+                if let (Ok((jb, _)), Ok((ja, _))) = (before, after) {
+                    for (c, (n, a)) in cals.iter().zip(answers) {
+                        for (what, r) in [("now", n), ("at_system_time(now)", a)] {
+                            match r {
+                                Ok((d, secs)) => {
+                                    let j = d.julian_day_number();
+                                    cx.check(jb <= j && j <= ja && secs < 86400, || format!("{c:?}.{what}() = day {j} second {secs}, clock says day {jb}..{ja}"));
+                                    cx.check(d.calendar() == *c && d == c.at_jdn(j), || format!("{c:?}.{what}() = {d:?}, expected {:?}", c.at_jdn(j)));
+                                }
+                                Err(e) => cx.check(false, || format!("{c:?}.{what}() = {e:?}")),
+                            }
+                        }
+                    }
+                }
+            }
             true
         }
         _ => false,
